@@ -73,6 +73,9 @@ func strictSection(s *uefi.Section) string {
 			return "FAIL strict section-gd-fields-not-from-node-bytes"
 		}
 	}
+	if r := strictSectionText(s, hl); r != "" {
+		return r
+	}
 	// children: sections of the decoded payload (its bytes are not kept by the implementation, so
 	// only their mutual layout can be checked), or the nested volume of an FV-image section
 	var kids []*uefi.Section
@@ -92,6 +95,10 @@ func strictSection(s *uefi.Section) string {
 				return r
 			}
 		}
+	}
+	if dec := decodedPayload(s); dec != nil {
+		// the section was decoded: its children tile the decoded payload
+		return strictDecodedKids(dec, kids)
 	}
 	return strictSections(nil, 0, kids)
 }
@@ -176,6 +183,9 @@ func strictFV(fv *uefi.FirmwareVolume) string {
 	hlen, _ := rd(vb, 48, 2)
 	if l != fv.Length || at != uint64(fv.Attributes) || hlen != uint64(fv.HeaderLen) || !bytes.Equal(vb[16:32], fv.FileSystemGUID[:]) {
 		return "FAIL strict fv-fields-not-from-node-bytes"
+	}
+	if r := strictFVFields(fv); r != "" {
+		return r
 	}
 	off := fv.DataOffset
 	prevHdrEnd := uint64(0)
@@ -525,11 +535,13 @@ func gen(r *Rng, tier string, emit Emit) {
 			emit("C", "parse", H(m))
 		}
 	}
+	genAudit(r, tier, emit)
 }
 
 func main() {
 	uefiops.RegisterAll()
 	Register("p_partition_strict", PPartitionStrict)
 	Register("p_modes", PModes)
+	Register("p_flash_partition", PFlashPartition)
 	Main(gen)
 }
